@@ -318,6 +318,9 @@ Definition rfc_ref_decode_block (hd : list N -> option (list N)) (L : nat) (rs :
      3  the dynamic table afterwards differs (entries or size)
      4  the dynamic table is larger than the protocol's limit after an accepted block
      5  accepted although a required size update (4.2) is missing
+     6  like 1, but the only objection is the placement of a size update: the same octets are
+        accepted, with the same headers and table, when size updates are allowed between header
+        fields ([ref_block_anywhere])
    The history is judged up to the first block the implementation rejected (rejecting is always
    allowed by the property; the connection is dead afterwards). *)
 
@@ -341,6 +344,30 @@ Fixpoint hd_recorded (tbl : list (list N * option (list N))) (raw : list N) : op
 Definition oracle_block : Type :=
   (list N * list N * bool * list field * option (list field) * N)%type.
 
+(* the grammar with the placement rule of 6.3 dropped (used only to classify objections) *)
+Fixpoint ref_block_anywhere (hd : list N -> option (list N)) (L : nat) (limit : N) (fuel : nat)
+  (dyn : list field) (max : N) (bs : list N) : option (list field * list field * N) :=
+  match bs with
+  | [] => Some ([], dyn, max)
+  | _ :: _ =>
+    match fuel with
+    | O => None
+    | S fuel' =>
+      match ref_update_step L limit bs with
+      | Some (n, rest) => ref_block_anywhere hd L limit fuel' (evict_to n dyn) n rest
+      | None =>
+        match ref_field_step hd L max dyn bs with
+        | Some (f, dyn1, rest) =>
+          match ref_block_anywhere hd L limit fuel' dyn1 max rest with
+          | Some (fs, d, m) => Some (f :: fs, d, m)
+          | None => None
+          end
+        | None => None
+        end
+      end
+    end
+  end.
+
 Definition last_limit (rs : rstate) (queued : list N) : rstate :=
   match rev queued with
   | [] => rs
@@ -356,7 +383,15 @@ Fixpoint oracle_history (hd : list N -> option (list N)) (L : nat) (rs : rstate)
     else
       let rs1 := last_limit rs queued in
       match ref_decode_block hd L rs1 bs with
-      | None => 1
+      | None =>
+        match ref_block_anywhere hd L (r_limit rs1) (length bs) (r_dyn rs1) (r_max rs1) bs with
+        | Some (rfs, dyn2, _) =>
+          if fields_eq rfs fs
+             && match entries with Some es => fields_eq dyn2 es | None => true end
+             && (table_size dyn2 =? tsize)
+          then 6 else 1
+        | None => 1
+        end
       | Some (rfs, rs2) =>
         if negb (fields_eq rfs fs) then 2
         else if negb (match entries with Some es => fields_eq (r_dyn rs2) es | None => true end
